@@ -407,7 +407,11 @@ func c04RefVars(vs []c04Var, q c04Req) c04Tri {
 	for i, v := range vs {
 		a := c04VarValue(v.Name, q)
 		if v.Regex != "" {
-			vals[i] = c04Re(v.Regex).MatchString(a)
+			// variable matchers: "regex" is a SEARCH (regexp.MatchString) - the repository's own tests of the
+			// variable rule spell the semantics out ("regex.MatchString(uri)" with the unanchored pattern
+			// /[0-9]+, pkg/router/variable_rule_test.go), so unanchored patterns are decided here, unlike for
+			// path rules and header matchers (c04Re)
+			vals[i] = regexp.MustCompile(v.Regex).MatchString(a)
 		} else {
 			vals[i] = a == v.Value
 		}
